@@ -634,6 +634,51 @@ Example init_label_scan :
   scan_file LCpp cpp10 = expected_all cpp10 cpp10_ds cpp10_ds.
 Proof. vm_compute. split; reflexivity. Qed.
 
+(* brace groups in a parameter list after a ")" at the same depth, allowed by the state machine of binner:
+   function f ( p0 = ( ) => 0 , { a , b } , p1 = mk ( 2 ) , { c } : Opts ) { z ; }          (TypeScript) *)
+Definition ts11 : list token :=
+  toks [(0,s_function);(1,[102]);(2,[40]);(1,[112;48]);(3,s_eq);(2,[40]);(2,[41]);(2,s_arrow);(7,[48]);(2,[44]);
+        (2,[123]);(1,[97]);(2,[44]);(1,[98]);(2,[125]);(2,[44]);(1,[112;49]);(3,s_eq);(1,[109;107]);(2,[40]);(7,[50]);(2,[41]);(2,[44]);
+        (2,[123]);(1,[99]);(2,[125]);(3,s_colon);(1,[79;112;116;115]);(2,[41]);
+        (2,[123]);(1,[122]);(2,[59]);(2,[125])]%Z.
+Definition ts11_ds : list fdesc := [mkFd 1 0 29 29 32].
+
+Example ts11_items : forall l, is_jsts l = true -> canonical_program_of l ts11 ts11_ds.
+Proof.
+  intros l Hl. unfold canonical_program_of, ts11_ds.
+  let s := eval vm_compute in ts11 in change ts11 with s.
+  apply (io_func l 0 [] [_; _; _; _; _; _; _; _; _; _; _; _; _; _; _; _; _; _; _; _; _; _; _; _; _; _; _; _; _] 1 29 _ [_; _] _ [] [] []);
+    [reflexivity | | reflexivity | reflexivity | | intros E; destruct l; discriminate | constructor].
+  - apply (fh_function l _ _ [_; _; _; _; _; _; _; _; _; _; _; _; _; _; _; _; _; _; _; _; _; _; _; _; _; _; _]);
+      [exact Hl | reflexivity | reflexivity |].
+    apply bgroups_one.
+    apply (bgroup_intro _ [_; _; _; _; _; _; _; _; _; _; _; _; _; _; _; _; _; _; _; _; _; _; _; _; _] _); [reflexivity | | reflexivity].
+    do 2 (apply bi_plain; [reflexivity|]).
+    apply (bi_group _ _ [] _ _); [reflexivity | apply bi_nil | reflexivity |].
+    do 3 (apply bi_plain; [reflexivity|]).
+    apply (bi_brace _ [_; _; _] _ _); [reflexivity | reflexivity | reflexivity |].
+    do 4 (apply bi_plain; [reflexivity|]).
+    apply (bi_group _ _ [_] _ _); [reflexivity | apply binner_of_plains; reflexivity | reflexivity |].
+    apply bi_plain; [reflexivity|].
+    apply (bi_brace _ [_] _ _); [reflexivity | reflexivity | reflexivity |].
+    do 2 (apply bi_plain; [reflexivity|]). apply bi_nil.
+  - apply (io_stmt l _ [_; _] [] []); [apply one_stmt; reflexivity | constructor].
+Qed.
+
+Example ts11_hypotheses :
+  wf_descs ts11 ts11_ds /\ lexically_canonical_of LTypeScript ts11 ts11_ds /\ lexically_canonical_of LJavaScript ts11 ts11_ds.
+Proof.
+  split; [|split].
+  - apply (canonical_of_wf LTypeScript); [discriminate | apply ts11_items; reflexivity].
+  - apply (canonical_of_lexical LTypeScript); [discriminate | apply ts11_items; reflexivity].
+  - apply (canonical_of_lexical LJavaScript); [discriminate | apply ts11_items; reflexivity].
+Qed.
+
+Example ts11_scan :
+  scan_file LTypeScript ts11 = expected_all ts11 ts11_ds ts11_ds /\
+  scan_file LJavaScript ts11 = expected_all ts11 ts11_ds ts11_ds.
+Proof. vm_compute. split; reflexivity. Qed.
+
 (* the hypotheses of the end-to-end theorem hold of the examples: by the theorems ... *)
 Example ts1_hypotheses : wf_descs ts1 ds1 /\ lexically_canonical_of LTypeScript ts1 ds1.
 Proof.
